@@ -359,6 +359,21 @@ def real_hmc(ctx, rng):
                 ),
                 120,
             )
+        except mici.errors.AdaptationError as e:
+            # documented outcome (C17 `finalize_error_iff`): a slow window that ends with fewer than
+            # two position samples over all chains cannot estimate a variance
+            probe = mici.adapters.OnlineVarianceMetricAdapter()
+            stages = mici.stagers.WindowedWarmUpStager().stages(n_warm, n_main, {"t": [probe]}, None)
+            too_few = any(
+                st.adapters and any(a is probe for a in st.adapters.get("t", [])) and 0 < st.n_iter * n_chain < 2
+                for st in stages.values()
+            )
+            if too_few and "At least two chain samples" in str(e):
+                ctx.case(case, nontrivial=False)
+                ctx.count("real_hmc_too_few_samples_error")
+            else:
+                ctx.disagreement(f"HMC run raised {type(e).__name__}: {e}", case)
+            continue
         except Exception as e:  # noqa: BLE001
             ctx.disagreement(f"HMC run raised {type(e).__name__}: {e}", case)
             continue
